@@ -6,7 +6,8 @@ import WpModel.Drive.DrawSkeleton
 import WpModel.Drive.PdfFile
 import WpModel.Drive.PdfFonts
 import WpModel.Drive.GradientDraw
+import WpModel.Drive.PdfUaLinks
 
 def main : IO Unit := Wp.Drive.runDriver
   [Wp.Drive.PdfStream.handle, Wp.Drive.ContentCheck.handle, Wp.Drive.PdfPages.handle, Wp.Drive.DrawSkeleton.handle,
-   Wp.Drive.PdfFile.handle, Wp.Drive.PdfFonts.handle, Wp.Drive.GradientDraw.handle]
+   Wp.Drive.PdfFile.handle, Wp.Drive.PdfFonts.handle, Wp.Drive.GradientDraw.handle, Wp.Drive.PdfUaLinks.handle]
